@@ -144,7 +144,7 @@ def triage(pid, k, props):
 
 def refactor(pid, k, props):
     """behaviour-preserving refactoring probe: apply /tmp/refactor-out/<pid>/<k>/patch.diff in the worktree, run the tests, run the checks (they should stay silent)"""
-    wt = "/tmp/wt-" + pid
+    wt = os.environ.get("PROBE_WT", "/tmp/wt-" + pid)
     d = os.path.join("/tmp/refactor-out", pid, str(k))
     sh("git checkout -- . && git clean -fdq -e target", cwd=wt)
     rc, out = sh(["git", "apply", os.path.join(d, "patch.diff")], cwd=wt)
@@ -175,8 +175,30 @@ def refactor(pid, k, props):
     print(pid, k, "tests_ok", res.get("tests_ok"), {k_: v for k_, v in res.items() if k_ != "tests_ok"} or "all checks silent")
 
 
+def probe_keep(pid, k):
+    """copy a refactoring probe (patch, notes, latest result) from /tmp/refactor-out into /verif/probes/<pid>-<k>/"""
+    import shutil
+    d = os.path.join("/tmp/refactor-out", pid, str(k))
+    out = os.path.join(V, "probes", "%s-%s" % (pid, k))
+    os.makedirs(out, exist_ok=True)
+    for f in ("patch.diff", "notes.md"):
+        shutil.copy(os.path.join(d, f), os.path.join(out, f))
+    res = json.load(open(os.path.join(d, "result.json")))
+    title = open(os.path.join(d, "notes.md")).readline().strip().lstrip("# ").strip()
+    what = title.split("/", 1)[1].strip() if "/" in title.split(" - ")[0].split(" \u2014 ")[0] else title
+    what = what[:1].upper() + what[1:]
+    firing = {p_: v for p_, v in res.items() if p_ != "tests_ok"}
+    meta = {"id": "%s-%s" % (pid, k), "anchored_property": pid, "what": what,
+            "kind": "behaviour-preserving refactoring written by a sub-agent (property text + worktree only); outputs compared byte for byte by the agent, pinned tests re-run by me",
+            "tests_pass": bool(res.get("tests_ok")), "checks_firing": firing, "silent": not firing}
+    json.dump(meta, open(os.path.join(out, "meta.json"), "w"), indent=1)
+    print(meta["id"], "silent" if meta["silent"] else firing)
+
+
 if __name__ == "__main__":
     a = sys.argv[1:]
+    if a[0] == "probe-keep":
+        probe_keep(a[1], a[2]); sys.exit(0)
     if a[0] == "confirm":
         sys.exit(confirm(a[1], a[2]))
     if a[0] == "check":
